@@ -18,7 +18,7 @@ var c18States = []string{"empty", "fresh", "stale", "stale+must-revalidate", "no
 
 func runC18(x *mc.X) {
 	state := mc.Pick(x, "state", c18States)
-	extra := x.Choose("extra-directives", 32)
+	extra := x.Choose("extra-directives", 64)
 	spelling := mc.Pick(x, "spelling", []string{"canonical", "upper", "second-line", "extension-mixed"})
 	w := world.New(world.Opt{})
 	defer w.Close()
@@ -89,7 +89,7 @@ func runC18(x *mc.X) {
 	}
 
 	// --- the only-if-cached request
-	extras := []string{"no-cache", "max-age=0", "max-stale", "min-fresh=5", "no-store"}
+	extras := []string{"no-cache", "max-age=0", "max-stale", "min-fresh=5", "no-store", "min-fresh=1000"}
 	var ds []string
 	for i, d := range extras {
 		if extra&(1<<i) != 0 {
